@@ -183,14 +183,25 @@ def check_problem(ctx: Ctx, cls: ClassInfo):
         ctx.fail(rid, cls.name, cls.module.relpath, 'problem class has no constructor', key=f'{rid}::{cls.name}::no-init')
         return 0
     helper_mods = ('iOpt.problems.grishagin_function',)
-    ex = ctx.explorer(unroll=1, max_paths=8000,
-                      inline=lambda f, st: f.name == 'GetOptimumPoint' and f.module.name.startswith(helper_mods))
+    base = ctx.ix.cls('Problem')
+
+    def inl(f, st) -> bool:
+        if f.name == 'GetOptimumPoint' and f.module.name.startswith(helper_mods):
+            return True
+        # construction helpers shared by the problem classes (static factories of the base class, module functions
+        # of the problem modules) are part of the constructor
+        if f.name in ('__init__', 'Calculate'):
+            return False
+        return f.module is base.module or (f.cls is not None and f.cls.is_subclass_of(base)) or \
+            (f.cls is None and f.module is cls.module)
+    ex = ctx.explorer(unroll=1, max_paths=8000, inline=inl)
     selfv = var(init.param_names[0])
     sk = key_of(selfv)
     n = 0
     for p in C.normal_paths(ex.explore(init)):
         # consider the path on which every loop body ran once (fills visible)
-        loops = [e for e in p.events if e.kind == 'loopexit' and e.depth == 0 and e.d['k'] == 0]
+        loops = [e for e in p.events if e.kind == 'loopexit' and e.d['k'] == 0 and
+                 (e.depth == 0 or inl(e.func, None))]
         if loops:
             continue
         n += 1
